@@ -6,6 +6,7 @@
 -/
 import NngModel.Proofs.UrlParse
 import NngModel.Proofs.UrlDot
+import NngModel.Generated.C19
 set_option linter.unusedSimpArgs false
 namespace Nng.UrlProofs
 open Nng Nng.Url Nng.UrlSpec
